@@ -22,6 +22,7 @@ import (
 	"net/http/httptest"
 	"net/url"
 	"os"
+	"path"
 	"path/filepath"
 	"regexp"
 	"sort"
@@ -68,20 +69,22 @@ func fileBody(name string, id int) []byte {
 }
 
 type answer struct {
-	Status  int      `json:"status"`
-	K       string   `json:"k"`     // page | static | redirect | notfound | dirlist | other
-	File    int      `json:"file"`  // number of the file whose marker the body carries (0: none)
-	Form    string   `json:"form"`  // md | html | static | "" : how the marker appears
-	Loc     string   `json:"loc"`   // Location header as sent
-	To      string   `json:"to"`    // Location resolved against the request path (path only)
-	LocSafe bool     `json:"locsafe"`
-	CType   string   `json:"ctype"`
-	Entries []string `json:"entries,omitempty"`
-	RawSrc  bool     `json:"rawsrc"` // the body shows unrendered page source
-	Leaked  bool     `json:"leaked"` // the body carries bytes of a file outside the served roots
-	Panic   string   `json:"panic,omitempty"`
-	BodyLen int      `json:"bodylen"`
-	CLenOK  bool     `json:"clenok"` // Content-Length, when set, equals the body length
+	Status    int      `json:"status"`
+	K         string   `json:"k"`    // page | static | redirect | notfound | dirlist | other
+	File      int      `json:"file"` // number of the file whose marker the body carries (0: none)
+	Form      string   `json:"form"` // md | html | static | "" : how the marker appears
+	Loc       string   `json:"loc"`  // Location header as sent
+	To        string   `json:"to"`   // Location resolved against the request path (path only)
+	LocSafe   bool     `json:"locsafe"`
+	CType     string   `json:"ctype"`
+	Entries   []string `json:"entries,omitempty"`
+	RawSrc    bool     `json:"rawsrc"` // the body shows unrendered page source
+	Leaked    bool     `json:"leaked"` // the body carries bytes of a file outside the served roots
+	Panic     string   `json:"panic,omitempty"`
+	BodyLen   int      `json:"bodylen"`
+	Stdlib500 bool     `json:"stdlib500,omitempty"`
+	Snip      string   `json:"snip,omitempty"` // start of the body, for answers of kind "other"
+	CLenOK    bool     `json:"clenok"`         // Content-Length, when set, equals the body length
 }
 
 var hrefRe = regexp.MustCompile(`<a href="([^"]*)">`)
@@ -160,6 +163,9 @@ func classify(rec *httptest.ResponseRecorder, reqPath string, statics map[int][]
 	}
 	a.LocSafe = locSafe(a.Loc)
 	a.To = resolveLoc(reqPath, a.Loc)
+	// net/http's own FileServer answers a file URL that ends in "/." or "/.." with
+	// this fixed 500; that is the standard library's choice, not the package's
+	a.Stdlib500 = rec.Code == 500 && strings.HasPrefix(string(body), "http: attempting to traverse a non-directory")
 	a.Leaked = bytes.Contains(body, []byte("OUTSIDE"))
 	a.RawSrc = bytes.Contains(body, []byte("{{")) || bytes.Contains(body, []byte("Layout:")) || bytes.Contains(body, []byte("*MK_"))
 	if m := mkRe.FindSubmatch(body); m != nil {
@@ -193,6 +199,7 @@ func classify(rec *httptest.ResponseRecorder, reqPath string, statics map[int][]
 		sort.Strings(a.Entries)
 	default:
 		a.K = "other"
+		a.Snip = trunc(string(body), 300)
 	}
 	return a
 }
@@ -518,6 +525,33 @@ func observed(tr *tree, p string, slash bool, a answer) rt.M {
 
 type outsideSpec struct{ rel, data string }
 
+// hitsBroken: a hostile spelling may still come down to a page of the tree that
+// cannot be rendered (markdown without layout); its 500 is the page's fault.
+func hitsBroken(tr *tree, decoded string) bool {
+	c := path.Clean(strings.TrimPrefix(decoded, "/"))
+	return tr.broken[c] || tr.broken[c+".md"]
+}
+
+// whyNoFile names, for reports only, the reason a path cannot name a file of
+// the tree at all: what is left after lexical cleaning is not a valid io/fs name
+// ("invalid-path"), it holds a NUL byte ("nul-byte"), or it leads through a
+// regular file ("through-file").
+func whyNoFile(tr *tree, decoded string) string {
+	c := path.Clean(strings.TrimPrefix(decoded, "/"))
+	switch {
+	case !fs.ValidPath(c):
+		return "invalid-path"
+	case strings.ContainsRune(c, 0):
+		return "nul-byte"
+	}
+	for i := 0; i < len(c); i++ {
+		if c[i] == '/' && tr.kind[c[:i]] == "file" {
+			return "through-file"
+		}
+	}
+	return ""
+}
+
 // TestVerifX01Fuzz serves random trees from the real file system the way
 // telemetrygodev does (unionfs.Sub over two roots of one directory) and plainly
 // (os.DirFS), surrounded by files that must never be served, and fires
@@ -648,11 +682,13 @@ func TestVerifX01Fuzz(t *testing.T) {
 							break
 						}
 					}
+				} else if slash {
+					broken = tr.broken[p]
 				}
 				rt.Out(rt.M{"kind": "obs", "cls": "canonical", "via": sv.name, "path": reqPath, "abs": abs,
-					"obs": observed(tr, p, slash, a),
-					"safe": rt.M{"status": a.Status, "leaked": a.Leaked, "locsafe": a.LocSafe, "broken": broken},
-					"rawsrc": a.RawSrc && a.K != "static" && a.K != "dirlist", "loc": a.Loc, "panic": pan})
+					"obs":    observed(tr, p, slash, a),
+					"safe":   rt.M{"status": a.Status, "leaked": a.Leaked, "locsafe": a.LocSafe, "broken": broken || a.Stdlib500},
+					"rawsrc": a.RawSrc && a.K != "static" && a.K != "dirlist", "loc": a.Loc, "panic": pan, "why": whyNoFile(tr, reqPath), "snip": a.Snip})
 				nobs++
 			}
 		}
@@ -673,8 +709,8 @@ func TestVerifX01Fuzz(t *testing.T) {
 				}
 				a := classify(rec, decoded, nil)
 				rt.Out(rt.M{"kind": "obs", "cls": "hostile", "class": class, "shape": id, "via": sv.name, "path": decoded,
-					"safe": rt.M{"status": a.Status, "leaked": a.Leaked, "locsafe": a.LocSafe, "broken": false},
-					"loc": a.Loc, "panic": pan, "k": a.K})
+					"safe": rt.M{"status": a.Status, "leaked": a.Leaked, "locsafe": a.LocSafe, "broken": hitsBroken(tr, decoded) || a.Stdlib500},
+					"loc":  a.Loc, "panic": pan, "k": a.K, "why": whyNoFile(tr, decoded), "snip": a.Snip})
 				nobs++
 			}
 			// (2) through a ServeMux, from the request line as a client sends it
@@ -689,8 +725,8 @@ func TestVerifX01Fuzz(t *testing.T) {
 			}
 			a := classify(rec, r2.URL.Path, nil)
 			rt.Out(rt.M{"kind": "obs", "cls": "hostile", "class": class, "shape": id, "via": "mux", "path": encoded,
-				"safe": rt.M{"status": a.Status, "leaked": a.Leaked, "locsafe": a.LocSafe, "broken": false},
-				"loc": a.Loc, "panic": pan, "k": a.K})
+				"safe": rt.M{"status": a.Status, "leaked": a.Leaked, "locsafe": a.LocSafe, "broken": hitsBroken(tr, r2.URL.Path) || a.Stdlib500},
+				"loc":  a.Loc, "panic": pan, "k": a.K, "why": whyNoFile(tr, r2.URL.Path)})
 			nobs++
 		}
 		// an existing directory and page of this tree, for the shapes to lean on
